@@ -1033,3 +1033,50 @@ fn replay_protocol() {
     report("readonly", s_readonly());
     report("faults", s_faults());
 }
+
+/// C10: summary strings survive saving under every code page, also after switching code pages back and forth
+#[test]
+fn replay_summary_codepages() {
+    use crate::internal::codepage::CodePage;
+    let pages = [CodePage::Windows1252, CodePage::Utf8, CodePage::Windows1250, CodePage::Utf8, CodePage::Windows1252];
+    let mut witness: Option<String> = None;
+    'outer: for first in pages.iter() {
+        for second in pages.iter() {
+            let m = Medium::new();
+            let r = quiet_catch(|| -> Result<Option<String>, String> {
+                let mut p = Package::create(PackageType::Installer, m.clone()).map_err(|e| e.to_string())?;
+                p.summary_info_mut().set_codepage(*first);
+                p.summary_info_mut().set_author("J\u{fc}rgen \u{e9}t\u{e9}");
+                p.flush().map_err(|e| e.to_string())?;
+                p.summary_info_mut().set_codepage(*second);
+                p.summary_info_mut().set_subject("na\u{ef}ve");
+                p.into_inner().map_err(|e| e.to_string())?;
+                let q = Package::open(Cursor::new(m.snapshot())).map_err(|e| format!("reopen failed: {}", e))?;
+                let (a, s, c) = (q.summary_info().author().map(|x| x.to_string()), q.summary_info().subject().map(|x| x.to_string()), q.summary_info().codepage());
+                if a.as_deref() != Some("J\u{fc}rgen \u{e9}t\u{e9}") || s.as_deref() != Some("na\u{ef}ve") || c != *second {
+                    return Ok(Some(format!("author {:?}, subject {:?}, code page {:?}", a, s, c)));
+                }
+                Ok(None)
+            });
+            match r {
+                Err(_) => {
+                    witness = Some(format!("switching the summary code page from {:?} to {:?} panics", first, second));
+                    break 'outer;
+                }
+                Ok(Err(e)) => {
+                    witness = Some(format!("switching the summary code page from {:?} to {:?}: {}", first, second, e));
+                    break 'outer;
+                }
+                Ok(Ok(Some(w))) => {
+                    witness = Some(format!("after switching the summary code page from {:?} to {:?} and reopening: {}", first, second, w));
+                    break 'outer;
+                }
+                Ok(Ok(None)) => {}
+            }
+        }
+    }
+    println!("OUT differs={}", if witness.is_some() { 1 } else { 0 });
+    if let Some(w) = witness {
+        println!("OUT witness={}", w);
+    }
+}
